@@ -7,7 +7,8 @@ from typing import Optional
 VERIF = os.path.dirname(os.path.dirname(os.path.abspath(__file__)))
 REPO = os.environ.get("VERIF_REPO", "/repo")
 SRC = os.path.join(REPO, "spqlios")
-BUILD = os.path.join(VERIF, "build")
+# one scratch directory per check invocation (concurrent invocations must not share goto binaries); removed at exit
+BUILD = os.path.join(VERIF, "build", "run%d" % os.getpid())
 GUARD = "SPQLIOS_VERIF"
 
 MEM_KB = int(os.environ.get("VERIF_MEM_KB", str(10 * 1024 * 1024)))  # ulimit -v per solver process
